@@ -20,8 +20,11 @@ TRUSTED = ["failures are injected from outside (corrupting a file, a Runner with
 
 STAGES = {'raw': ['none', 'incomplete', 'unreadable', 'surplus'],
           'runner': ['none', 'incomplete', 'unreadable', 'label', 'surplus'],
-          'harvester': ['none', 'incomplete', 'unreadable', 'label', 'conflict', 'saveerr'],
-          'sampler': ['none', 'incomplete', 'unreadable', 'label', 'saveerr']}
+          'harvester': ['none', 'incomplete', 'unreadable', 'label', 'conflict', 'saveerr', 'finishing'],
+          'sampler': ['none', 'incomplete', 'unreadable', 'label', 'saveerr', 'finishing']}
+# 'finishing': a partial reap (allow_incomplete) of a crop whose last batch is still missing, during whose sync with the
+# farmer's store another worker finishes that batch -- the crop is complete by the time the deferred clean-up is decided,
+# yet what was reaped was not: only an explicit clean_up=True may delete it
 
 
 def nontrivial(c): return True
@@ -39,6 +42,7 @@ def cases(ctx):
                         for wait in (False, True):
                             if wait and stage == 'incomplete': continue
                             if stage == 'incomplete' and ai and kind in ('harvester', 'sampler'): continue
+                            if stage == 'finishing' and (wait or not ai): continue
                             out.append({'kind': kind, 'stage': stage, 'clean_up': cu, 'allow_incomplete': ai, 'wait': wait,
                                         'n': n, 'bs': bs, 'engine': rng.choice(['joblib', 'h5netcdf']) if kind == 'harvester' else 'pickle',
                                         'shuffle': rng.choice([0, 5])})
@@ -64,7 +68,7 @@ def _surplus(c):
 def _ops(c):
     nb = -(-c['n'] // c['bs'])
     ids = list(range(1, nb + 1))
-    if c['stage'] == 'incomplete': ids = ids[:-1] or []
+    if c['stage'] in ('incomplete', 'finishing'): ids = ids[:-1] or []
     if _surplus(c):
         nb = 3
         ops = [{'op': 'new', 'nb': nb}, {'op': 'sow', 'shuffle': 0, 'cases': False, 'sw': _sweep(6, 6)},
@@ -76,6 +80,7 @@ def _ops(c):
     r = {'op': 'reapf', 'kind': c['kind'], 'allow_incomplete': c['allow_incomplete'], 'wait': c['wait'],
          'label_fails': c['stage'] == 'label', 'deliver_fails': c['stage'] in ('conflict', 'saveerr')}
     if c['clean_up'] is not None: r['clean_up'] = c['clean_up']
+    if c['stage'] == 'finishing': r['late_ids'] = [nb]
     ops.append(r)
     if not _expect_fail(c): return ops
     if c['stage'] in ('incomplete',): ops.append({'op': 'growmissing'})
@@ -87,7 +92,7 @@ def _ops(c):
 
 
 def _expect_fail(c):
-    return c['stage'] != 'none' and not (c['stage'] == 'incomplete' and c['allow_incomplete'])
+    return c['stage'] not in ('none', 'finishing') and not (c['stage'] == 'incomplete' and c['allow_incomplete'])
 
 
 def run_real(c, ctx):
@@ -129,7 +134,7 @@ def run_real(c, ctx):
                 ls_sown = crops.ls(loc)
                 nb = -(-c['n'] // c['bs'])
                 ids = list(range(1, nb + 1))
-                if c['stage'] == 'incomplete': ids = ids[:-1]
+                if c['stage'] in ('incomplete', 'finishing'): ids = ids[:-1]
                 if ids: crop.grow(ids, verbosity=0)
         obs = [{'o': None, 'ls': None}, {'o': None, 'ls': ls_sown}, {'o': None, 'ls': crops.ls(loc)}]
         if _surplus(c): obs = [{'o': None, 'ls': None}, {'o': None, 'ls': ls_sown}, {'o': None, 'ls': ls_grown}, {'o': None, 'ls': crops.ls(loc)}]
@@ -141,6 +146,17 @@ def run_real(c, ctx):
         if c['stage'] == 'conflict':
             bad = xr.Dataset(coords={'a': [sw['values']['a'][0]]}, data_vars={'x': ('a', [-777.0])})
             xyz.save_ds(bad, data, engine=c['engine'])
+        if c['stage'] == 'finishing':
+            # another worker finishes the outstanding batch at the moment the farmer starts syncing
+            meth = 'add_ds' if c['kind'] == 'harvester' else 'add_df'
+            orig = getattr(farmer, meth)
+            nb_all = -(-c['n'] // c['bs'])
+
+            def syncing(*a, **k):
+                with quiet():
+                    xyz.Crop(name='t', parent_dir=d).grow([nb_all], verbosity=0)
+                return orig(*a, **k)
+            setattr(farmer, meth, syncing)
         opts = dict(allow_incomplete=c['allow_incomplete'], wait=c['wait'])
         if c['clean_up'] is not None: opts['clean_up'] = c['clean_up']
 
@@ -247,8 +263,14 @@ def oracle(c, obs):
     if a2['o']['res'] != 'ok':
         return f'after correcting the cause ({c["stage"]}) the retried reap failed: {a2["o"].get("exc")}: {a2["o"].get("msg")}'
     first_ok = a1 if a1['o']['res'] == 'ok' else a2
-    if c['stage'] != 'incomplete' or not c['allow_incomplete']:
+    final = first_ok['ls']
+    if c['stage'] not in ('incomplete', 'finishing') or not c['allow_incomplete']:
         if not value_ok(first_ok['o']['val']): return 'the delivered data are not the exact results'
+    if c['stage'] == 'finishing' and not resolved:
+        nb_all = -(-c['n'] // c['bs'])
+        if final is None or final.get('r') != list(range(1, nb_all + 1)) or final.get('b') != list(range(1, nb_all + 1)):
+            return ('a partial reap whose missing batch was finished by another worker during the sync must leave every '
+                    f'crop file in place (clean-up did not apply): directory after the reap {final}')
     if expect_fail:
         if not value_ok(a2['o']['val']): return 'the retried reap did not deliver the exact results'
     final = first_ok['ls']
@@ -257,8 +279,20 @@ def oracle(c, obs):
     if c['kind'] in ('harvester', 'sampler'):
         st = first_ok.get('store')
         if st is None or 'unreadable' in (st or {}): return 'crop reaped but the data file does not hold the data'
-        if c['kind'] == 'harvester' and st['vars']['x']['data'] != want and not (c['stage'] == 'incomplete'):
+        if c['stage'] == 'finishing':
+            # a partial reap was delivered: finished settings exact, the others missing
+            nfin = (-(-c['n'] // c['bs']) - 1) * c['bs']
+            miss = lambda v: v is None or v == 'nan'
+            if c['kind'] == 'harvester':
+                got = st['vars']['x']['data']
+                if len(got) != len(want) or any((not miss(g)) and g != w for g, w in zip(got, want)) or sum(1 for g in got if not miss(g)) != nfin:
+                    return f'the harvester file does not hold the partial results (finished exact, others missing): {got}'
+            else:
+                byarg = {v: w for v, w in zip(sw['values']['a'], want)}
+                if any((not miss(r['x'])) and r['x'] != byarg.get(r['a']) for r in st) or sum(1 for r in st if not miss(r['x'])) != nfin:
+                    return f'the sampler file does not hold the partial results: {st}'
+        elif c['kind'] == 'harvester' and st['vars']['x']['data'] != want and not (c['stage'] == 'incomplete'):
             return 'the harvester file does not hold the exact results'
-        if c['kind'] == 'sampler' and sorted(r['x'] for r in st) != sorted(want): return 'the sampler file does not hold exactly the reaped rows'
+        elif c['kind'] == 'sampler' and sorted(r['x'] for r in st) != sorted(want): return 'the sampler file does not hold exactly the reaped rows'
     if c['kind'] != 'raw' and obs['last'] is None: return "the farmer's last result was not set"
     return None
